@@ -265,7 +265,7 @@ Inductive sprep :=
 Inductive scall :=
 | SConstruct (c : cid) (pos : option aval) (kw : list (aid * aval))   (* C(pos, **kw) *)
 | SSetAttr (x : aval) (a : aid) (v : aval)                            (* x.a = v, returns x *)
-| SResetAttr (x : aval) (a : aid) (strict : bool).                    (* del x.a, returns x *)
+| SResetAttr (x : aval) (a : aid) (top : bool).                       (* del x.a, returns x *)
 
 Section Core.
   Variable ct : ctable.
@@ -472,16 +472,32 @@ Section Core.
         if ty_is_collection (a_ty sp) then normalise sp v1 else SOk v1
     end.
 
-  (* --- invalidation: attributes invalidated by `a` go back to their default --- *)
-  Definition invalidated_by_ (sp : attr_spec) (a : aid) : bool :=
-    existsb (fun x => (x =? a) || (x =? STAR)) (a_inv_by sp) && negb (a_name sp =? a).
+  (* --- invalidation: every attribute that depends on `a` -- directly
+     (invalidated_by names `a` or '*') or through a chain of such
+     dependencies -- goes back to its default, once --- *)
+  Definition depends_on (sp : attr_spec) (a : aid) : bool :=
+    existsb (fun x => (x =? a) || (x =? STAR)) (a_inv_by sp).
+
+  Fixpoint inval_close (fuel : nat) (k : cls) (pending seen acc : list aid) : list aid :=
+    match fuel with
+    | O => acc
+    | S f =>
+        match pending with
+        | [] => acc
+        | p :: rest =>
+            let new := fold_left (fun l sp => if depends_on sp p && negb (in_names (a_name sp) (seen ++ l))
+                                              then l ++ [a_name sp] else l) (c_attrs k) [] in
+            inval_close f k (rest ++ new) (seen ++ new) (acc ++ new)
+        end
+    end.
+  Definition invalidatees (k : cls) (a : aid) : list aid :=
+    inval_close (S (length (c_attrs k))) k [a] [a] [].
 
   Definition invalidate (x : aval) (a : aid) : sres aval :=
     match x with
     | AInst c _ =>
         k <~ cls_for c ;;
-        sfold (fun y sp => if invalidated_by_ sp a then rec (SResetAttr y (a_name sp) false) else SOk y)
-              (c_attrs k) x
+        sfold (fun y b => rec (SResetAttr y b false)) (invalidatees k a) x
     | _ => SOk x
     end.
 
@@ -509,9 +525,12 @@ Section Core.
     | _ => SAnyErr                           (* attribute assignment on a non-instance *)
     end.
 
-  (* del x.a: the default when the class has one, otherwise the attribute
-     disappears; strict: deleting what is not there is an AttributeError *)
-  Definition reset_attr (x : aval) (a : aid) (strict : bool) : sres aval :=
+  (* the attribute goes back to the default when the class has one, otherwise
+     it disappears.  `top`: a deletion requested by the user (del x.a,
+     reset_<a>, reset): its dependants are invalidated; deleting what is not
+     there is an AttributeError.  Not `top`: a reset performed as part of an
+     invalidation: no further invalidation, nothing-to-delete is fine. *)
+  Definition reset_attr (x : aval) (a : aid) (top : bool) : sres aval :=
     match x with
     | AInst c d =>
         k <~ cls_for c ;;
@@ -519,9 +538,9 @@ Section Core.
         | Some sp =>
             dv <~ default_of k sp ;;
             if a_is_missing dv then
-              if fhas a d then invalidate (AInst c (fdel a d)) a
-              else if strict then SErr AttrErr else SOk x
-            else store x sp dv true
+              if fhas a d then (if top then invalidate (AInst c (fdel a d)) a else SOk (AInst c (fdel a d)))
+              else if top then SErr AttrErr else SOk x
+            else store x sp dv top
         | None => SAny
         end
     | _ => SAny
@@ -564,7 +583,7 @@ Section Core.
     match q with
     | SConstruct c pos kw => construct c pos kw
     | SSetAttr x a v => set_attr x a v
-    | SResetAttr x a strict => reset_attr x a strict
+    | SResetAttr x a top => reset_attr x a top
     end.
 End Core.
 
@@ -651,7 +670,9 @@ Section Helpers.
     match x with
     | AInst c _ =>
         k <~ cls_for ct c ;;
-        sfold (fun y sp => reset_attr ct h0 rec y (a_name sp) false) (c_attrs k) x
+        sfold (fun y sp => match reset_attr ct h0 rec y (a_name sp) true with
+                           | SErr AttrErr => SOk y
+                           | r => r end) (c_attrs k) x
     | _ => SAny
     end.
 
